@@ -184,21 +184,22 @@ theorem encodePackets_cons (p : Packet) (ps : List Packet) :
   simp [encodePackets]
 
 /-- prepend packets to the outcome of the rest of the loop -/
-def prepend (ps : List Packet) : Except IoErr (List Packet) × Bytes → Except IoErr (List Packet) × Bytes
+def prepend (ps : List Packet) :
+    Except (IoErr × List Packet) (List Packet) × Bytes → Except (IoErr × List Packet) (List Packet) × Bytes
   | (.ok qs, c) => (.ok (ps ++ qs), c)
-  | (.error e, c) => (.error e, c)
+  | (.error (e, qs), c) => (.error (e, ps ++ qs), c)
 
-theorem prepend_nil (r : Except IoErr (List Packet) × Bytes) : prepend [] r = r := by
-  rcases r with ⟨r | r, c⟩ <;> simp [prepend]
+theorem prepend_nil (r : Except (IoErr × List Packet) (List Packet) × Bytes) : prepend [] r = r := by
+  rcases r with ⟨⟨e, qs⟩ | r, c⟩ <;> simp [prepend]
 
-theorem prepend_cons (p : Packet) (ps : List Packet) (r : Except IoErr (List Packet) × Bytes) :
+theorem prepend_cons (p : Packet) (ps : List Packet) (r : Except (IoErr × List Packet) (List Packet) × Bytes) :
     prepend (p :: ps) r = prepend [p] (prepend ps r) := by
-  rcases r with ⟨r | r, c⟩ <;> simp [prepend]
+  rcases r with ⟨⟨e, qs⟩ | r, c⟩ <;> simp [prepend]
 
 theorem readLoop_succ_ok (snap n : Nat) (p : Packet) (cur cur1 : Bytes) (h : nextPacket snap cur = (.ok p, cur1)) :
     readLoop snap (n + 1) cur = prepend [p] (readLoop snap n cur1) := by
   simp only [readLoop, h]
-  rcases readLoop snap n cur1 with ⟨r | r, c⟩ <;> simp [prepend]
+  rcases readLoop snap n cur1 with ⟨⟨e, qs⟩ | r, c⟩ <;> simp [prepend]
 
 /-- the loop over `ps` followed by anything, with at least `|ps|` iterations allowed -/
 theorem readLoop_encode (snap : Nat) (ps : List Packet) (wf : ∀ p ∈ ps, WfPacket snap p) (rest : Bytes) :
@@ -329,6 +330,42 @@ theorem corrupt_prefix (hdr : GlobalHeader) (ps : List Packet) (wf : ∀ p ∈ p
     rw [List.length_cons, encodePackets_cons, List.append_assoc, readNexts_succ_ok hdr _ p _ _ hp, this]
     simp
 
+/-- **corruption, through `pcap_read_all`**: the complete records before the malformed one are
+delivered (exactly `ps`), and the next read — `pcap_read_next` or `pcap_read_all` — reports the
+error object; with no complete record before it the error object is returned at once -/
+theorem corrupt_prefix_all (hdr : GlobalHeader) (ps : List Packet) (wf : ∀ p ∈ ps, WfPacket hdr.snaplen p)
+    (h : PacketHeader) (h1 : h.tsSec < 4294967296) (h2 : h.tsUsec < 4294967296) (h3 : h.caplen < 4294967296)
+    (h4 : h.wirelen < 4294967296) (hbad : h.caplen > hdr.snaplen) (rest : Bytes) (hlen : ps.length < USIZE_MAX) :
+    let r : Reader := { hdr, cur := encodePackets ps ++ (h.toBytes ++ rest) }
+    (ps ≠ [] → (readAll r none).1 = .arr ps ∧
+        (readNext (readAll r none).2).1 = .err .invalidData ∧
+        (readAll (readAll r none).2 none).1 = .err .invalidData) ∧
+    (ps = [] → (readAll r none).1 = .err .invalidData) := by
+  intro r
+  have hj := nextPacket_corrupt hdr.snaplen h h1 h2 h3 h4 hbad rest
+  have hloop := readLoop_encode hdr.snaplen ps wf (h.toBytes ++ rest) USIZE_MAX (by omega)
+  obtain ⟨m, hm⟩ : ∃ m, USIZE_MAX - ps.length = m + 1 := ⟨USIZE_MAX - ps.length - 1, by omega⟩
+  have hbadloop : readLoop hdr.snaplen (m + 1) (h.toBytes ++ rest) = (.error (.invalidData, []), rest) := by
+    simp only [readLoop, hj]
+  rw [hm, hbadloop] at hloop
+  have hall : readAll r none =
+      if !ps.isEmpty then (.arr ps, { hdr, cur := rest, failed := some .invalidData })
+      else (.err .invalidData, { hdr, cur := rest, failed := some .invalidData }) := by
+    simp only [readAll, r, hloop, prepend, List.append_nil, stickyOf]
+    cases ps <;> simp
+  constructor
+  · intro hne
+    have : (!ps.isEmpty) = true := by cases ps <;> simp_all
+    rw [hall]
+    simp only [this, if_true]
+    refine ⟨trivial, ?_, ?_⟩
+    · simp [readNext]
+    · simp [readAll, USIZE_MAX]
+  · intro he
+    subst he
+    rw [hall]
+    simp
+
 /-! ### writing -/
 
 theorem writeFile_eq (ps : List Packet) : writeFile ps = newFile ++ encodePackets ps := by
@@ -374,9 +411,10 @@ theorem write_read_excluded :
   · have hj := nextPacket_corrupt 65535 p.hdr (by decide) (by decide) (by decide) (by decide) (by decide)
       (p.data ++ [])
     have hcur : encodePackets [p] = p.hdr.toBytes ++ (p.data ++ []) := by simp [encodePackets, Packet.toBytes]
-    have hloop : readLoop 65535 USIZE_MAX (p.hdr.toBytes ++ (p.data ++ [])) = (.error .invalidData, p.data ++ []) := by
+    have hloop : readLoop 65535 USIZE_MAX (p.hdr.toBytes ++ (p.data ++ [])) = (.error (.invalidData, []), p.data ++ []) := by
       simp only [USIZE_MAX, readLoop, hj]
-    simp only [readAll, default_snaplen, hcur, hloop]
+    simp only [List.append_nil] at hloop hcur
+    simp [readAll, default_snaplen, hcur, hloop, stickyOf]
 
 /-! ### no panic -/
 
@@ -386,10 +424,14 @@ def outIsPanic : Out → Bool
 
 theorem readNext_no_panic (r : Reader) : (readNext r).1 ≠ .panic := by
   unfold readNext
-  split <;> simp
+  split
+  · simp
+  · split <;> simp
 
 theorem readAll_no_panic (r : Reader) (n : Option Int) : (readAll r n).1 ≠ .panic := by
-  cases n <;> simp only [readAll] <;> split <;> simp
+  simp only [readAll]
+  repeat' split
+  all_goals simp
 
 theorem stepRun_no_panic (s : RunState) (st : Step) : outIsPanic (stepRun s st).1 = false := by
   cases st with
